@@ -46,6 +46,13 @@ SCALAR_PATTERNS = ["r=a", "r|a", "r=a|b", "r=b|a", "r=a=b", "r|a=b", "r|a|b",
                    "r=a|b|t", "r=b|a|t", "r=a=b|t", "r|a|b|t", "r=a|t"]
 INFO_PATTERNS = ["r=t|a|b", "r=a=t|b", "r|a=t|b", "r=t|a", "r=a=t"]
 
+# branch regions of the piecewise operations that must be entered with a magic AND with a plain receiver
+BRANCHES = ["%s %s %s" % (op, k, b) for k in ("real", "plain") for op, bs in (
+    ("Log1pExp", ["x<=-37", "-37<x<=18", "18<x<=33.3", "x>33.3"]),
+    ("Sigmoid", ["x>=0", "x<0"]), ("Logistic", ["x>=0", "x<0"]), ("Abs", ["x>=0", "x<0"]),
+    ("LogAdd", ["a<b", "a>b", "b=-Inf"]), ("LogSub", ["a>b", "b=-Inf"]), ("Min", ["a<b", "a>b"]), ("Max", ["a<b", "a>b"]),
+    ("Pow", ["base=0", "integer exponent", "fractional exponent"])) for b in bs]
+
 _REPLAYING = [False]
 
 
@@ -103,6 +110,15 @@ def vacuity_scalar(s):
             raise vlib.Infra("vacuous: instantiation %s never executed" % k)
     if s["mixed_order_executions"] == 0:
         raise vlib.Infra("vacuous: no execution with operands of differing derivative order")
+    ints = [k for k in ("Int/generic", "Int8/generic", "Int16/generic", "Int32/generic", "Int64/generic") if s["instantiations"].get(k, 0) == 0]
+    if ints:
+        raise vlib.Infra("vacuous: integer scalar types never executed: %s" % ints)
+    missing = [op for op in UNARY + BINARY + PARAM if s["plain_receiver_by_op"].get(op, 0) == 0]
+    if missing:
+        raise vlib.Infra("vacuous: operations never executed with a plain (Float / Int) receiver: %s" % missing)
+    missing = [b for b in BRANCHES if s["branches"].get(b, 0) == 0]
+    if missing:
+        raise vlib.Infra("vacuous: branch regions of piecewise operations never entered: %s" % missing)
     if s["reduce_cases"] == 0:
         raise vlib.Infra("vacuous: no reduction case executed")
     if s["comparisons"] < 10 * s["scalar_cases"]:
@@ -121,6 +137,9 @@ def vacuity_cont(s):
             raise vlib.Infra("vacuous: the explicit rejection %s was never observed" % k)
     if not any("s" in k for k in s["storage"]) or not any("d" in k for k in s["storage"]):
         raise vlib.Infra("vacuous: storage kinds executed: %s" % sorted(s["storage"]))
+    if s["special_cases"] == 0 or not all(any(k.startswith(p + " ") and k.endswith(" s") and v > 0 for k, v in s["special_patterns"].items())
+                                          for p in ("r=a", "r=b", "r=a=b")):
+        raise vlib.Infra("vacuous: special operand values (Inf, NaN, -0) under aliasing with a sparse receiver: %s" % s["special_patterns"])
     if len(s["instantiations"]) < 18:
         raise vlib.Infra("vacuous: element type x method family instantiations: %s" % sorted(s["instantiations"]))
 
@@ -264,7 +283,11 @@ def run(ctx):
         "container_cases": csum["container_cases"], "container_executions": csum["container_executions"],
         "container_patterns": csum["by_pattern"], "container_instantiations": csum["instantiations"],
         "container_storage": csum["storage"], "rejected_by_panic": csum["rejected_by_panic"],
-        "reject_or_correct_accepted_correct": csum["accepted_correct"]}
+        "reject_or_correct_accepted_correct": csum["accepted_correct"],
+        "branch_regions_entered": ssum["branches"], "plain_receiver_executions_by_op": ssum["plain_receiver_by_op"],
+        "integer_type_executions_not_judged": ssum["int_unjudged"],
+        "special_value_cases": csum["special_cases"], "special_value_executions": csum["special_executions"],
+        "special_value_patterns": csum["special_patterns"]}
     ctx.extra["information_only"] = {
         "temporary_shared_with_another_role_cases": ssum["scalar_info_cases"],
         "temporary_shared_disagreements": ssum["info_disagree"],
